@@ -128,6 +128,37 @@ var encSections = []corpusSection{
 		// the same Go type under two annotations that differ only in one
 		// list<->set choice, 0-3 container levels down, used in one process
 		// (and one struct): descriptor caches keyed too coarsely confuse them
+		if i%3 == 2 {
+			// the same named int64 Go type as enum (i32 on the wire) and as plain i64
+			named := zoo.Enums[r.Intn(len(zoo.Enums))]
+			wrap := func(t *schema.Type, w int) *schema.Type {
+				switch w {
+				case 1:
+					return schema.ListOf(t)
+				case 2:
+					return schema.MapOf(schema.Scalar(schema.String), t)
+				case 3:
+					return schema.MapOf(t, schema.Scalar(schema.I16))
+				case 4:
+					return schema.SetOf(schema.ListOf(t))
+				}
+				return t
+			}
+			w := r.Intn(5)
+			a, b := wrap(schema.EnumOf(named), w), wrap(schema.NamedI64(named), w)
+			if r.Bool() {
+				a, b = b, a
+			}
+			s := &schema.Struct{UnknownIdx: -1, Fields: []*schema.Field{
+				{ID: uint16(1 + r.Intn(5)), Req: schema.Default, T: a},
+				{ID: uint16(10 + r.Intn(5)), Req: schema.Default, T: b},
+			}}
+			if r.Bool() {
+				s.GoOrder = []int{1, 0}
+			}
+			s.Build()
+			return &corpusCase{S: s, V: gen.NewValue(r, s, gen.DefaultValCfg()), Class: "twins", Tags: []string{fmt.Sprintf("twin:enum-vs-i64:wrap=%d", w)}}
+		}
 		depth := i % 4
 		leaf := []schema.Kind{schema.I32, schema.I64, schema.String, schema.I8, schema.Double}[r.Intn(5)]
 		var build func(level, flipAt int, flip bool) *schema.Type
